@@ -413,7 +413,7 @@ func (d *GDoc) render() string {
 // ---------------------------------------------------------------------------------------
 // damage: what storage and transfer faults make out of a file
 
-var damageKinds = []string{"bitflip", "drop", "insert", "truncate", "zero", "stutter", "lonecr", "crlf_partial", "latin1", "randblock", "dup_line", "splice", "bignum", "longline", "ctrl_at_boundary"}
+var damageKinds = []string{"bitflip", "drop", "insert", "truncate", "zero", "stutter", "lonecr", "crlf_partial", "latin1", "randblock", "dup_line", "splice", "bignum", "longline", "ctrl_at_boundary", "malformed_line", "blank_runs"}
 
 func damage(r *Rng, s string, kind string) string {
 	b := []byte(s)
@@ -557,6 +557,43 @@ func damage(r *Rng, s string, kind string) string {
 		i := cands[r.Intn(len(cands))]
 		ins := r.Pick([]string{"\x1b[31", "\x1b[1;", "\x1b[", "\x1b[0m", "\x1b", "\x00", "\x7f", "\u200b", "\u0301", "\ufeff", "\x1b[38;5;1", "\u202e"})
 		b = append(b[:i], append([]byte(ins), b[i:]...)...)
+	case "malformed_line":
+		// a crafted rule-violating (or borderline) line lands in the file
+		ls := strings.SplitAfter(string(b), "\n")
+		ml := r.Pick(trickyLines)
+		eol := "\n"
+		if strings.Contains(string(b), "\r\n") {
+			eol = "\r\n"
+		}
+		i := r.Intn(len(ls) + 1)
+		switch r.Intn(4) {
+		case 0:
+			if i < len(ls) {
+				ls[i] = ml + eol // replaces a line
+			} else {
+				ls = append(ls, ml) // at the very end, no newline
+			}
+		case 1:
+			ls = append(ls, ml) // last line without newline
+		default:
+			ls = append(ls[:i], append([]string{ml + eol}, ls[i:]...)...)
+		}
+		b = []byte(strings.Join(ls, ""))
+	case "blank_runs":
+		// runs of blank and whitespace-only lines at random places (also at both ends)
+		ls := strings.SplitAfter(string(b), "\n")
+		for k := r.Range(1, 4); k > 0; k-- {
+			i := r.Intn(len(ls) + 1)
+			if r.Chance(1, 4) {
+				i = r.Pick2([]int{0, len(ls)})
+			}
+			var run []string
+			for n := r.Range(1, 9); n > 0; n-- {
+				run = append(run, r.Pick([]string{"", "", "", " ", "  ", "\t", "    ", " \t "})+r.Pick([]string{"\n", "\n", "\n", "\r\n"}))
+			}
+			ls = append(ls[:i], append(run, ls[i:]...)...)
+		}
+		b = []byte(strings.Join(ls, ""))
 	case "longline":
 		// a very long line: a run of junk (or of a repeated fragment) lands inside a line
 		i := pos()
@@ -573,3 +610,10 @@ func damage(r *Rng, s string, kind string) string {
 	}
 	return string(b)
 }
+
+var trickyLines = []string{"    -", "\t-", "2024-01-01 (", "2024-01-01 ( ", "2024-01-01 (   )", "2024-01-01 (8h", "2024-01-01 (!)", "2024-01-01 ()",
+	"    8:000 - 9:00", "    8:60", "    8:0", "2024-01-01\t", "2024-01-01\t(8h!)", "     1h", "\t  1h", "  \t1h", "\u00a0\u00a01h", "\u00a0", "\r", "  \r", "    1h\r x",
+	"    8:00 -", "    8:00 - ", "    - 9:00", "    8:00 - ? ?", "    8:00-?-", "    <", "    >", "    8:00>>", "    <<8:00", "    <8:00>",
+	"    12:00am - 12:00pm", "    24:00 - 24:00", "    24:00>", "    é", "    8:00 - 9:00é", "(8h!)", "2024-01-01 (8h!) x", "2024-01-01 (8h!)(9h!)",
+	"2024-13-01", "2024-02-30", "0000-00-00", "2024-1-1", "20240101", "    1h\x00", "#", "    #", "    1h #", "    1h #=", "    1h #a=\"", "    -?", "    ?", "    1h2", "    hm", "    +", "    --1h",
+	"        continuation without entry", "summary after entries", " leading blank headline", "    8:00am - 8:00", "    0:00 - 24:00", "    <0:00 - 24:00>"}
